@@ -27,6 +27,7 @@ namespace Givaro {
     inline typename Poly1Dom<Domain,Dense>::Rep& Poly1Dom<Domain,Dense>::midmul(
         Rep& R, const Rep& P, const Rep& Q ) const
     {
+        if (&R == &P || &R == &Q) { Rep T; midmul(T, P, Q); return assign(R, T); } // R may be the same object as P or Q
         size_t sR = R.size();
         size_t sP = P.size();
         size_t sQ = Q.size();
@@ -48,6 +49,7 @@ namespace Givaro {
     inline typename Poly1Dom<Domain,Dense>::Rep& Poly1Dom<Domain,Dense>::stdmidmul(
         Rep& R, const Rep& P, const Rep& Q ) const
     {
+        if (&R == &P || &R == &Q) { Rep T; stdmidmul(T, P, Q); return assign(R, T); } // R may be the same object as P or Q
         const size_t sP = P.size();
         const size_t sQ = Q.size();
         const size_t sR = sP-sQ+1;
@@ -65,6 +67,7 @@ namespace Givaro {
     inline typename Poly1Dom<Domain,Dense>::Rep& Poly1Dom<Domain,Dense>::karamidmul(
         Rep& R, const Rep& P, const Rep& Q ) const
     {
+        if (&R == &P || &R == &Q) { Rep T; karamidmul(T, P, Q); return assign(R, T); } // R may be the same object as P or Q
         // Assumes sP = 2*sQ-1; otherwise undefined behavior
         const size_t sP = P.size();
         const size_t sQ = Q.size();
